@@ -77,6 +77,20 @@ impl TcpListener {
 
             tracing::trace!(target: TRACING_TARGET, src = ?origin, dst = ?self.local_addr, protocol = %"TCP SYN", "Recv");
 
+            // The address pair is the only identity a stream has on this
+            // host. A request that reuses the pair of a stream that is still
+            // open here (the peer recycled an ephemeral port) cannot be told
+            // apart from it: refuse the request instead of accepting it.
+            let in_use = World::current(|world| {
+                let host = world.current_host_mut();
+                let local = self.accepted_local_addr(origin, host.addr);
+                host.tcp.has_stream(SocketPair::new(local, origin))
+            });
+            if in_use {
+                drop(syn);
+                continue;
+            }
+
             let ack = syn.ack.send(());
             tracing::trace!(target: TRACING_TARGET, src = ?self.local_addr, dst = ?origin, protocol = %"TCP SYN-ACK", "Send");
 
@@ -89,13 +103,7 @@ impl TcpListener {
             let (pair, rx) = {
                 let host = world.current_host_mut();
 
-                let mut my_addr = self.local_addr;
-                if origin.ip().is_loopback() {
-                    my_addr.set_ip(origin.ip());
-                }
-                if my_addr.ip().is_unspecified() {
-                    my_addr.set_ip(host.addr);
-                }
+                let my_addr = self.accepted_local_addr(origin, host.addr);
 
                 let pair = SocketPair::new(my_addr, origin);
                 let (rx, _) = host.tcp.new_stream(pair);
@@ -124,6 +132,18 @@ impl TcpListener {
 
         tracing::trace!(target: TRACING_TARGET, src = ?self.local_addr, dst = ?origin, "Accepted");
         Ok((stream, origin))
+    }
+
+    /// The local address of a stream accepted from `origin`.
+    fn accepted_local_addr(&self, origin: SocketAddr, host_addr: std::net::IpAddr) -> SocketAddr {
+        let mut my_addr = self.local_addr;
+        if origin.ip().is_loopback() {
+            my_addr.set_ip(origin.ip());
+        }
+        if my_addr.ip().is_unspecified() {
+            my_addr.set_ip(host_addr);
+        }
+        my_addr
     }
 
     /// Returns the local address that this listener is bound to.
